@@ -181,6 +181,19 @@ fn make_edge_resolver_and_call(
     (match_arm, resolver)
 }
 
+/// The name of the Rust binding that holds the value of the given edge parameter.
+///
+/// Avoids Rust keywords, and the bindings that the generated code itself relies on
+/// at the places where the parameter bindings are introduced.
+fn escaped_parameter_binding_name(parameter_name: &str) -> String {
+    match parameter_name {
+        "contexts" | "parameters" | "resolve_info" | "_resolve_info" => {
+            format!("{parameter_name}_")
+        }
+        _ => escaped_rust_name(parameter_name.to_string()),
+    }
+}
+
 pub(super) struct FnCall {
     pub(super) fn_params: proc_macro2::TokenStream,
     pub(super) fn_args: proc_macro2::TokenStream,
@@ -197,7 +210,7 @@ pub(super) fn prepare_call_parameters(
 
     for (parameter_name, parameter_type) in parameters {
         let ident = syn::Ident::new(
-            &escaped_rust_name(parameter_name.clone()),
+            &escaped_parameter_binding_name(parameter_name),
             proc_macro2::Span::call_site(),
         );
         let ty = trustfall_type_to_rust_type(parameter_type);
